@@ -330,7 +330,7 @@ class LibHarness(Harness):
             old_spec = ([('M', 'title: x\n')] if ctx.choose(2) else []) + [('H',), ('P',)]
         elif quick:
             old_menu = [[], [('P',)], [('R', oth)], [('I', oth)], [('R', 'zz')], [('I', 'zz')],
-                        [('T',), ('P',)], [('T',), ('R', oth)], [('C',), ('I', oth)], [('U',), ('P',)], [('P',), ('Hs',)], [('B',), ('P',)]]
+                        [('T',), ('P',)], [('T',), ('R', oth)], [('C',), ('I', oth)], [('U',), ('P',)], [('P',), ('Hs',)], [('B',), ('P',)], [('Q', oth), ('P',)]]
             old_spec = ([('H',)] if ctx.choose(2) else []) + old_menu[ctx.choose(len(old_menu))]
         else:
             old_spec = gen_doc_spec(ctx, targets[:2], 1, False)
@@ -624,6 +624,16 @@ class LibHarness(Harness):
             exp = [list(x) for x in v['info']['expected']]
             v['replay_verdict'] = 'native %s%s = %s, independent scan expects %s' % (kind, tgt, got, exp)
             return got != exp
+        if law.startswith('C13.block-at-line'):
+            k = v['info']['note']
+            line = (v.get('model') or {}).get('line', 0)
+            b = driver.run(fresh_s + [{'op': 'node_id_at', 'key': k, 'line': line}])
+            of2, nf, kf = self.named(b[:-1], texts)
+            got = None if b[-1] is None else name_id(b[-1], nf, ordinals(nf, kf))
+            covering = [o for o, lr in v['info']['blocks'] if lr[0] <= line < lr[1]]
+            exp = max(covering) if covering else None
+            v['replay_verdict'] = 'native get_node_id_at(%s, %d) = %s; innermost block covering the line has ordinal %s' % (k, line, got, exp)
+            return (got[1] if got else None) != exp
         return False
 
     def replay_line(self, v, driver, inc_s, fresh_s, texts):
